@@ -40,6 +40,9 @@ def run(rep, tier):
     point_kernel(rep, F)
     small_pair_tables(rep, F)
     contains_point_table(rep, F)
+    # the legacy EuclideanDistance / EuclideanLength traits are twins of Euclidean.distance / length (rule shared with C16)
+    from . import c16
+    c16.legacy_twins(rep, F, "R7.11", ("Euclidean",))
     from . import gt_tables
     gt_tables.run(rep, F, "R7.10", select={"line_euclidean_length", "line_segment_distance", "point_line_euclidean_distance", "Line::dx", "Line::dy"})
 
